@@ -117,8 +117,11 @@ let handle (x : Sexp.t) : string =
         | Sexp.List [Sexp.Atom "panic"; m] when cc && expected = None && Lazy.force dead <> None
                                                 && contains (Sexp.atom m) "Found unsatisfiable constraints"
                                                 && contains (Sexp.atom m) (Printf.sprintf "in cycle %d" (match Lazy.force dead with Some d -> d | None -> -1)) ->
-            (* the documented assert_eq! of check_constraints, at the step the model says *)
-            incr n_runs; incr n_cc_panic
+            (* the assert_eq! of check_constraints, at the step the model says (C02_bmc_full_check_constraints_panic_iff):
+               a crash instead of the verdict Success - recorded finding *)
+            incr n_runs; incr n_cc_panic;
+            set_fail "panic:check-constraints:unsatisfiable-constraints"
+              (Printf.sprintf "%s: no execution of %d steps satisfies the constraints; bmc with check_constraints = true panics (assert_eq!, bmc.rs) instead of reporting Success" (run_tag r) (match Lazy.force dead with Some d -> d | None -> -1))
         | Sexp.List [Sexp.Atom "unknown"] ->
             incr n_runs; set_fail "verdict:unknown" (snd (mismatch "Unknown"))
         | Sexp.List (Sexp.Atom "fail" :: w :: rest) ->
